@@ -161,7 +161,7 @@ Definition req_wf (r : request) : Prop :=
   | ReqConst dst _ | ReqClosure dst _ => reg_ok dst
   | ReqEtcLookup dst etc _ | ReqFillTable dst etc _ => reg_ok dst /\ reg_ok etc
   | ReqClTrunc _ => True
-  | ReqJump _ _ _ => True
+  | ReqJump _ from to len => 0 <= from < len /\ 0 <= to <= len      (* both addresses inside the function *)
   end.
 
 (* the emitted opcode reads back as what was asked for *)
@@ -174,8 +174,8 @@ Definition decodes_to (r : request) (w : Z) : Prop :=
   | ReqEtcLookup dst etc i => type_of w = T6 /\ GetF w = false /\ GetA w = dst /\ GetB w = etc /\ GetM w = i
   | ReqFillTable dst etc i => type_of w = T6 /\ GetF w = true /\ GetA w = dst /\ GetB w = etc /\ GetM w = i
   | ReqClTrunc h => type_of w = T5 /\ GetJ w = OpClStack /\ GetF w = false /\ GetClStackOffset w = h
-  | ReqJump opcode from to => GetOffset w = to - from /\ GetJ w = GetJ opcode /\ GetF w = GetF opcode /\
-                              GetA w = GetA opcode /\ TypePfx w = TypePfx opcode
+  | ReqJump opcode from to _ => GetOffset w = to - from /\ GetJ w = GetJ opcode /\ GetF w = GetF opcode /\
+                                GetA w = GetA opcode /\ TypePfx w = TypePfx opcode
   end.
 
 Lemma reg0_ok : reg_ok reg0.
@@ -187,7 +187,7 @@ Proof. intros. apply nth_indep. auto. Qed.
 Lemma limit_in_range_encodes r : req_wf r -> in_range r = true ->
   exists w, compile r = Encoded w /\ decodes_to r w.
 Proof.
-  destruct r as [regs|dst i|dst i|dst etc i|dst etc i|h|opcode from to]; unfold compile; cbn [req_wf in_range decodes_to];
+  destruct r as [regs|dst i|dst i|dst etc i|dst etc i|h|opcode from to len]; unfold compile; cbn [req_wf in_range decodes_to];
     intros Hwf Hin.
   - (* registers *)
     unfold allocReg. destruct (first_zero regs 0) as [j|] eqn:E.
@@ -206,14 +206,14 @@ Proof.
       * rewrite Nat2Z.id. apply nth_overflow. lia.
   - (* constant *)
     apply andb_true_iff in Hin. destruct Hin as [H0 H1]. apply Z.leb_le in H0, H1.
-    unfold compLoadConst, KIndexFromInt.
+    unfold compLoadConst, kIndex, KIndexFromInt.
     destruct (Z.ltb_spec i 0); [lia|]. destruct (Z.gtb_spec i 65535); [lia|]. cbn [orb compile_queue].
     eexists. split; [reflexivity|]. unfold LoadConst, encodeN.
     destruct (type3_fields Off OpK dst i) as (_&_&_&G4&G5&_&G7); unfold flag_ok, Off, OpK; try lia; auto.
     repeat split; auto. destruct type_of_mk as (M1&M2&M3&M4a&M4b&M5&M6&M7&M0); apply M3; unfold flag_ok; try lia; auto.
   - (* closure *)
     apply andb_true_iff in Hin. destruct Hin as [H0 H1]. apply Z.leb_le in H0, H1.
-    unfold compMkClosure, KIndexFromInt.
+    unfold compMkClosure, kIndex, KIndexFromInt.
     destruct (Z.ltb_spec i 0); [lia|]. destruct (Z.gtb_spec i 65535); [lia|]. cbn [orb compile_queue].
     eexists. split; [reflexivity|]. unfold LoadClosure, encodeN.
     destruct (type3_fields Off OpClosureK dst i) as (_&_&_&G4&G5&_&G7); unfold flag_ok, Off, OpClosureK; try lia; auto.
@@ -244,8 +244,9 @@ Proof.
     destruct (type5_fields Off OpClStack reg0 h) as (_&_&G3&G4&_&G6&_); unfold flag_ok, Off, OpClStack; try lia;
       auto using reg0_ok.
     repeat split; auto. destruct type_of_mk as (M1&M2&M3&M4a&M4b&M5&M6&M7&M0); apply M5; unfold flag_ok; try lia; auto using reg0_ok.
-  - (* jump *)
-    apply andb_true_iff in Hin. destruct Hin as [H0 H1]. apply Z.leb_le in H0. apply Z.ltb_lt in H1.
+  - (* jump: both addresses lie in a function of at most 32767 opcodes, so the distance fits *)
+    apply Z.leb_le in Hin. unfold maxCodeSize in Hin.
+    unfold compJump, maxCodeSize. destruct (Z.gtb_spec len 32767); [lia|].
     unfold fixup. rewrite s16_id by lia. rewrite Z.eqb_refl. cbn [compile_queue].
     eexists. split; [reflexivity|].
     destruct (SetOffset_fields opcode (to - from)) as (G2&_&G3&G4&G5&G6); [lia|].
@@ -253,26 +254,19 @@ Proof.
 Qed.
 
 (* ---------------------------------------------------------------- out of range *)
-(* what the code does today with a request beyond the limit *)
-Definition out_of_range_behaviour (r : request) : outcome :=
-  match r with
-  | ReqReg _ => CompileError
-  | ReqJump opcode from to => Truncated (SetOffset opcode (s16 (to - from)))
-  | _ => Panic
-  end.
-
-Lemma limit_out_of_range_classified r : req_wf r -> in_range r = false ->
-  compile r = out_of_range_behaviour r.
+(* THE statement: exceeding an implementation limit is a compile error — not a panic, not a
+   silently truncated opcode — for every limit *)
+Lemma limit_is_compile_error r : req_wf r -> in_range r = false -> compile r = CompileError.
 Proof.
-  destruct r as [regs|dst i|dst i|dst etc i|dst etc i|h|opcode from to];
-    unfold compile; cbn [req_wf in_range out_of_range_behaviour]; intros Hwf Hin.
+  destruct r as [regs|dst i|dst i|dst etc i|dst etc i|h|opcode from to len];
+    unfold compile; cbn [req_wf in_range]; intros Hwf Hin.
   - apply orb_false_iff in Hin. destruct Hin as [Hb Hl]. apply negb_false_iff in Hb.
     apply Z.ltb_ge in Hl. assert (E : allocReg regs = RPanicComp) by (apply allocReg_full; auto; split; auto; lia).
     now rewrite E.
-  - unfold compLoadConst, KIndexFromInt. apply andb_false_iff in Hin.
+  - unfold compLoadConst, kIndex. apply andb_false_iff in Hin.
     destruct (Z.ltb_spec i 0); [reflexivity|]. destruct (Z.gtb_spec i 65535); [reflexivity|].
     destruct Hin as [Hin|Hin]; apply Z.leb_gt in Hin; lia.
-  - unfold compMkClosure, KIndexFromInt. apply andb_false_iff in Hin.
+  - unfold compMkClosure, kIndex. apply andb_false_iff in Hin.
     destruct (Z.ltb_spec i 0); [reflexivity|]. destruct (Z.gtb_spec i 65535); [reflexivity|].
     destruct Hin as [Hin|Hin]; apply Z.leb_gt in Hin; lia.
   - unfold compEtcLookup. apply andb_false_iff in Hin.
@@ -284,51 +278,26 @@ Proof.
   - unfold compClTrunc. apply andb_false_iff in Hin.
     destruct (Z.ltb_spec h 0); [reflexivity|]. destruct (Z.geb_spec h 65536); [reflexivity|].
     destruct Hin as [Hin|Hin]; apply Z.leb_gt in Hin; lia.
-  - unfold fixup. destruct (Z.eqb_spec (s16 (to - from)) (to - from)) as [E|E]; [|reflexivity].
-    assert (Hr := s16_range (to - from)). rewrite E in Hr.
-    apply andb_false_iff in Hin. destruct Hin as [Hin|Hin]; [apply Z.leb_gt in Hin|apply Z.ltb_ge in Hin]; lia.
+  - apply Z.leb_gt in Hin. unfold compJump. destruct (Z.gtb_spec len maxCodeSize); [reflexivity|lia].
 Qed.
 
-(* the one limit that is handled: registers *)
-Lemma limit_is_compile_error_registers r : req_wf r -> is_reg_request r = true -> in_range r = false ->
-  compile r = CompileError.
+(* consequently no well-formed request ever ends in a Go panic or in a truncated opcode *)
+Lemma compile_never_panics_nor_truncates r : req_wf r ->
+  compile r <> Panic /\ forall w, compile r <> Truncated w.
 Proof.
-  intros Hwf Hr Hin. rewrite limit_out_of_range_classified by auto. destruct r; try discriminate. reflexivity.
+  intros Hwf. destruct (in_range r) eqn:E.
+  - destruct (limit_in_range_encodes r Hwf E) as (w & -> & _). split; [discriminate|intros; discriminate].
+  - rewrite (limit_is_compile_error r Hwf E). split; [discriminate|intros; discriminate].
 Qed.
 
-(* a truncated jump really is wrong: the offset the VM will read is not the distance asked for *)
-Lemma truncated_jump_is_wrong opcode from to : in_range (ReqJump opcode from to) = false ->
+(* the unchecked Offset(int) conversion of the Builder is still there; it is the length check that
+   makes it exact: without it the conversion changes the value *)
+Lemma truncated_jump_is_wrong opcode from to : ~ (- 2^15 <= to - from < 2^15) ->
   GetOffset (SetOffset opcode (s16 (to - from))) <> to - from.
 Proof.
-  intros Hin. cbn [in_range] in Hin.
+  intros Hin.
   destruct (SetOffset_fields opcode (s16 (to - from)) (s16_range _)) as (-> & _).
-  apply s16_wraps. apply andb_false_iff in Hin.
-  destruct Hin as [Hin|Hin]; [apply Z.leb_gt in Hin|apply Z.ltb_ge in Hin]; lia.
-Qed.
-
-(* every limit other than the register limit is NOT a compile error *)
-Lemma limit_not_compile_error r : req_wf r -> is_reg_request r = false -> in_range r = false ->
-  compile r <> CompileError /\
-  (compile r = Panic \/ exists w, compile r = Truncated w).
-Proof.
-  intros Hwf Hr Hin. rewrite limit_out_of_range_classified by auto.
-  destruct r; try discriminate; cbn [out_of_range_behaviour]; split; try discriminate; eauto.
-Qed.
-
-(* witnesses, as found on the Go code:
-   {1,...(256 items)..., f()}  -> FillTable index 256 -> Go panic;
-   a jump over 40000 opcodes   -> offset 40000 stored as -25536. *)
-Lemma limit_is_compile_error_refuted_panic :
-  exists r, req_wf r /\ in_range r = false /\ compile r = Panic.
-Proof. exists (ReqFillTable (ValueReg 0) (ValueReg 1) 256). split; [|split]; [|reflexivity|vm_compute; reflexivity].
-  unfold req_wf, reg_ok. cbn. lia. Qed.
-
-Lemma limit_is_compile_error_refuted_truncated :
-  exists r w, req_wf r /\ in_range r = false /\ compile r = Truncated w /\
-              match r with ReqJump _ from to => to - from = 40000 /\ GetOffset w = -25536 | _ => False end.
-Proof.
-  exists (ReqJump (Jump 0) 0 40000). eexists. split; [exact I|]. split; [reflexivity|].
-  split; [vm_compute; reflexivity|]. split; vm_compute; reflexivity.
+  now apply s16_wraps.
 Qed.
 
 (* ---------------------------------------------------------------- the program counter *)
@@ -339,22 +308,29 @@ Lemma pc_jump_exact pc off : 0 <= pc < 2^15 -> - 2^15 <= off < 2^15 -> 0 <= pc +
   pc_jump pc off = pc + off.
 Proof. intros. unfold pc_jump. rewrite (s16_id off) by lia. apply s16_id. lia. Qed.
 
-Lemma pc_exact pc off :
-  0 <= pc < 2^15 -> - 2^15 <= off < 2^15 -> 0 <= pc + off < 2^15 ->
-  pc_jump pc off = pc + off /\ (pc + 1 < 2^15 -> pc_next pc = pc + 1).
-Proof. intros H1 H2 H3. split; [now apply pc_jump_exact|intros; apply pc_next_exact; lia]. Qed.
-
-(* no length limit is enforced on a function's code: from the last representable pc the next pc is negative *)
-Lemma pc_wraps_refuted : exists pc, 0 <= pc /\ pc_next pc = - 32768.
-Proof. exists 32767. split; [lia|vm_compute; reflexivity]. Qed.
+(* in a function that passed the length check, the int16 pc never wraps: stepping and jumping
+   between addresses of the function are exact *)
+Lemma pc_exact len pc target : len <= maxCodeSize -> 0 <= pc < len -> 0 <= target <= len ->
+  pc_next pc = pc + 1 /\ pc_jump pc (target - pc) = target.
+Proof.
+  unfold maxCodeSize. intros Hl Hp Ht. split.
+  - apply pc_next_exact; lia.
+  - rewrite pc_jump_exact by lia. lia.
+Qed.
 
 (* hypotheses are satisfiable *)
 Example limits_inhabited :
   req_wf (ReqFillTable (ValueReg 0) (CellReg 1) 255) /\ in_range (ReqFillTable (ValueReg 0) (CellReg 1) 255) = true /\
   req_wf (ReqReg (repeat 1 255)) /\ in_range (ReqReg (repeat 1 255)) = false /\
-  compile (ReqReg (repeat 1 255)) = CompileError.
+  compile (ReqReg (repeat 1 255)) = CompileError /\
+  req_wf (ReqFillTable (ValueReg 0) (CellReg 1) 256) /\ compile (ReqFillTable (ValueReg 0) (CellReg 1) 256) = CompileError /\
+  req_wf (ReqJump (Jump 0) 0 40000 40001) /\ compile (ReqJump (Jump 0) 0 40000 40001) = CompileError /\
+  req_wf (ReqJump (Jump 0) 0 32767 32767) /\ in_range (ReqJump (Jump 0) 0 32767 32767) = true.
 Proof.
   split; [unfold req_wf, reg_ok; cbn [rtp ridx ValueReg CellReg]; lia|].
   split; [reflexivity|]. split; [unfold req_wf; rewrite repeat_length; lia|].
-  split; vm_compute; reflexivity.
+  split; [vm_compute; reflexivity|]. split; [vm_compute; reflexivity|].
+  split; [unfold req_wf, reg_ok; cbn [rtp ridx ValueReg CellReg]; lia|].
+  split; [vm_compute; reflexivity|]. split; [unfold req_wf; lia|].
+  split; [vm_compute; reflexivity|]. split; [unfold req_wf; lia|vm_compute; reflexivity].
 Qed.
